@@ -216,17 +216,26 @@ func redactCommand(cmd *orderedmap.OrderedMap[string, any], shouldEagerRedact bo
 	}
 }
 
+var planSummaryIndexClause = regexp.MustCompile(`IXSCAN\s*\{[^}]+\}`)
+
+// redactFieldNamesFromPlanSummary replaces the index-key names inside every "IXSCAN { ... }"
+// clause by their pseudonyms. Only the key tokens are rewritten (never other text that happens
+// to contain a field name, such as the IXSCAN keyword or an already inserted pseudonym).
 func redactFieldNamesFromPlanSummary(planSummary string) string {
-	if planSummary == "COLLSCAN" {
-		return planSummary
-	}
-	result := planSummary
-	fieldNames := ParsePlanSummary(planSummary)
-	for _, fieldName := range fieldNames {
-		hashed := HashName(fieldName)
-		result = strings.ReplaceAll(result, fieldName, hashed)
-	}
-	return result
+	return planSummaryIndexClause.ReplaceAllStringFunc(planSummary, func(clause string) string {
+		open := strings.Index(clause, "{")
+		body := clause[open+1 : len(clause)-1]
+		parts := strings.Split(body, ",")
+		for i, part := range parts {
+			key := strings.TrimSpace(strings.SplitN(part, ":", 2)[0])
+			if key == "" {
+				continue
+			}
+			at := strings.Index(part, key)
+			parts[i] = part[:at] + HashName(key) + part[at+len(key):]
+		}
+		return clause[:open+1] + strings.Join(parts, ",") + "}"
+	})
 }
 
 func traverseMapPath(path []string, operatorMap *orderedmap.OrderedMap[string, any], isSearchStage bool) (interface{}, bool) {
